@@ -9,7 +9,7 @@ FilesOf(in) == [i \in DOMAIN in.files |->
 
 \* A leading ',' or ')' is taken for a starting point by the operand scan (the property
 \* does not say where the operands end); such vectors are not judged.
-InDomain(in) == in.toks = <<>> \/ in.toks[1] \notin {"comma", "rp"}
+InDomain(in, obs) == in.toks = <<>> \/ in.toks[1] \notin {"comma", "rp"}
 
 Conforms(in, obs) ==
   /\ "panic" \notin DOMAIN obs
